@@ -447,6 +447,10 @@ spif_mbuff_cmp(spif_mbuff_t self, spif_mbuff_t other)
 
     SPIF_OBJ_COMP_CHECK_NULL(self, other);
     c = memcmp(SPIF_MBUFF_BUFF(self), SPIF_MBUFF_BUFF(other), MIN(self->len, other->len));
+    if (c == 0) {
+        /* Equal as far as the shorter one goes.  The shorter one sorts first. */
+        c = ((self->len < other->len) ? (-1) : ((self->len > other->len) ? (1) : (0)));
+    }
     return SPIF_CMP_FROM_INT(c);
 }
 
@@ -456,7 +460,12 @@ spif_mbuff_cmp_with_ptr(spif_mbuff_t self, spif_byteptr_t other, spif_memidx_t l
     int c;
 
     SPIF_OBJ_COMP_CHECK_NULL(self, other);
-    c = memcmp(SPIF_MBUFF_BUFF(self), other, len);
+    /* Compare the first len bytes, but never look beyond our own buffer. */
+    c = memcmp(SPIF_MBUFF_BUFF(self), other, MIN(self->size, len));
+    if ((c == 0) && (self->size < len)) {
+        /* We are a proper prefix of the other side, so we sort first. */
+        c = -1;
+    }
     return SPIF_CMP_FROM_INT(c);
 }
 
